@@ -488,7 +488,10 @@ class Impl:
         b = self.B[r]
         if b.length_segments == 0:
             raise ValueError("empty blueprint")
-        return self.builder(b, b.SR, b.durations)
+        del self.userfuncs.CALLS[:]
+        out = self.builder(b, b.SR, b.durations)
+        out["calls"] = [(n, list(a), SR, npts) for (n, a, SR, npts) in self.userfuncs.CALLS]
+        return out
 
     def op_OBDuration(self, r):
         return self.B[r].duration
